@@ -206,14 +206,20 @@ Record stored := Stored { sd_cert : cert; sd_fresh : bool }.
 Record envx := EnvX {
   x_idna : option str;
   x_storage : amap stored;
+  x_broken : list name;          (* names whose resources cannot be read (a storage error other than "not found") *)
   x_victim : option hash
 }.
 
-(** loadCertFromStorage: the exact name, else the name with its first label replaced by "*" *)
+(** loadCertFromStorage: the exact name, else -- only if the exact name does not exist
+    (fs.ErrNotExist), not on any other storage error -- the name with its first label replaced by "*" *)
 Definition star_first (n : name) : name :=
   join_with c_dot (match split_on c_dot n with [] => [] | _ :: r => [c_star] :: r end).
-Definition load_from_storage (st : amap stored) (n : name) : option stored :=
-  match alookup n st with Some x => Some x | None => alookup (star_first n) st end.
+Definition load_from_storage (st : amap stored) (broken : list name) (n : name) : option stored :=
+  match alookup n st with
+  | Some x => Some x
+  | None => if mem_str n broken then None
+            else if mem_str (star_first n) broken then None else alookup (star_first n) st
+  end.
 
 Definition defaulted_result (o : option (cert * bool * name)) : result :=
   match o with Some (c, _, _) => ROk c | None => RErr end.
@@ -275,7 +281,7 @@ Section LookupX.
         | Some nm =>
             if negb (subject_qualifies is_space nm) then (RErr, s) (* checkIfCertShouldBeObtained *)
             else match (if almost_full cap (length (cache s))
-                        then load_from_storage (x_storage e) nm else None) with
+                        then load_from_storage (x_storage e) (x_broken e) nm else None) with
                  | Some x =>                                       (* CacheManagedCertificate *)
                      let s1 := add_cert cap (sd_cert x) (x_victim e) s in
                      if sd_fresh x then (ROk (sd_cert x), s1)
@@ -290,7 +296,7 @@ Section LookupX.
     match hello_name cfg localip (x_idna e) with
     | None => Env true false None
     | Some nm => Env false (subject_qualifies is_space nm)
-                   (match load_from_storage (x_storage e) nm with
+                   (match load_from_storage (x_storage e) (x_broken e) nm with
                     | Some x => if sd_fresh x then Some (sd_cert x) else None
                     | None => None end)
     end.
